@@ -3,10 +3,11 @@ import CnvVerif.Driver.Interval
 import CnvVerif.Driver.Call
 import CnvVerif.Driver.SegFilter
 import CnvVerif.Driver.Tile
+import CnvVerif.Driver.Center
 open Lean CnvVerif.Drv
 
 def handlers : List (String → Json → Option Json → R (Option Json)) :=
-  [handleInterval, handleCall, handleSegFilter, handleTile]
+  [handleInterval, handleCall, handleSegFilter, handleTile, handleCenter]
 
 def dispatch (op : String) (inp : Json) (impl : Option Json) : R Json := do
   for h in handlers do
